@@ -13,6 +13,7 @@ import fam_query
 import fam_fsstore
 import fam_layout
 import fam_builder
+import fam_silent
 
 
 class WritePathFamily:
@@ -71,7 +72,18 @@ class BuilderFamily:
     evidence = staticmethod(fam_builder.evidence)
 
 
-FAMILIES = [WritePathFamily, SearchFamily, MinMaxFamily, MergeFamily, QueryFamily, FSStoreFamily, LayoutFamily, BuilderFamily]
+class SilentFamily:
+    NAME = "silent"
+    PROPS = fam_silent.PROPS
+    compute = staticmethod(fam_silent.compute)
+    evidence = staticmethod(fam_silent.evidence)
+
+
+FAMILIES = [WritePathFamily, SearchFamily, MinMaxFamily, MergeFamily, QueryFamily, FSStoreFamily, LayoutFamily, BuilderFamily, SilentFamily]
+
+# every harness runs with captured stdout/stderr and every monitor carries C27_Silent: for C27 the other
+# families' verdicts are folded in when their result for this tree is already cached (never computed for it)
+OPPORTUNISTIC = {"C27": [WritePathFamily, SearchFamily, MinMaxFamily, MergeFamily, QueryFamily, FSStoreFamily, LayoutFamily, BuilderFamily]}
 
 # families whose monitors also judge predicates of a property owned by another family: their
 # violations of that property are reported by the property's check as well
